@@ -653,3 +653,38 @@ def control_dependent_only_via(body, target_bb, edge, prog=None, path_sensitive=
     else:
         r = body.reach([0], avoid_edges=[edge])
     return target_bb not in r
+
+
+def reach_boolconst(body, starts):
+    """reachability that follows only the matching edge of a `switch` on a bool local whose last assignment
+    on the path was a constant (the lowering of `matches!(..)` and of `a || b` into a temp)."""
+    seen = set()
+    out = set()
+    work = [(s, frozenset()) for s in starts]
+    while work:
+        b, st = work.pop()
+        if (b, st) in seen:
+            continue
+        seen.add((b, st))
+        out.add(b)
+        facts = dict(st)
+        for s in body.stmts(b):
+            if "lhs" in s and not s["lhs"][1]:
+                l = s["lhs"][0]
+                v = const_bool(s["rv"].get("op")) if s["rv"]["k"] == "use" else None
+                if v is not None:
+                    facts[l] = v
+                else:
+                    facts.pop(l, None)
+        t = body.term(b)
+        if t["k"] == "call" and t.get("dest") and not t["dest"][1]:
+            facts.pop(t["dest"][0], None)
+        if t["k"] == "switch":
+            pl = op_place(t["op"])
+            if pl is not None and not pl[1] and pl[0] in facts:
+                tt, ft = switch_targets_bool(t)
+                work.append((tt if facts[pl[0]] else ft, frozenset(facts.items())))
+                continue
+        for s_ in body.succ[b]:
+            work.append((s_, frozenset(facts.items())))
+    return out
